@@ -5,18 +5,8 @@
 //!   pfv worker <ID> <tier> <seed> <shard> <n>    internal
 //!   pfv slow <ID> <sub> <start> <count>          internal: exhaustive block, per-case in-flight
 
-mod dna;
-mod driver;
-mod engine;
-mod gen_comp;
-mod gen_file;
-mod model_container;
-mod gen_plain;
-mod gen_stream;
-mod gen_syn;
-mod props;
-
-use engine::*;
+use pfv::engine::*;
+use pfv::{driver, engine, model_container, props};
 
 fn usage() -> ! {
     eprintln!("usage: pfv run <ID> quick|thorough [--seed N] | pfv replay <ID> <file> | pfv list");
@@ -90,6 +80,16 @@ fn main() {
             let start: u64 = args[4].parse().unwrap();
             let count: u64 = args[5].parse().unwrap();
             driver::slow_main(def, &sub, start, count);
+        }
+        "fuzz" => {
+            // pfv fuzz <ID> <runs> : coverage-guided stage (thorough tier)
+            if args.len() < 4 {
+                usage();
+            }
+            let def = props::find(&args[2]).unwrap_or_else(|| usage());
+            let runs: u64 = args[3].parse().unwrap_or(100_000);
+            let seed: u64 = std::env::var("VERIF_SEED").ok().and_then(|s| s.trim().parse::<i64>().ok()).map(|v| v as u64).unwrap_or(1);
+            std::process::exit(pfv::fuzzrun::run(def, runs, seed));
         }
         "digest" => {
             props::c14::digest_main(&args[2]);
